@@ -60,5 +60,6 @@ ConcreteEls(s) == TrimEls(
     [] s.k = "CLM" -> <<"CLM", "A1", "100">>
     [] s.k = "LX"  -> <<"LX", s.n>>
     [] s.k = "ISA" -> <<"ISA", Pad9(s.id)>>      \* the harness reduces an ISA that is unchanged character for character to this
-    [] OTHER -> <<"REF", "EA", "X1">>)
+    \* any other (body) segment; a non-empty id is a filler value (real-size inputs: lib/c20.concretise pads documents with it)
+    [] OTHER -> <<"REF", "EA", IF s.id = "" THEN "X1" ELSE s.id>>)
 =============================================================================
